@@ -5,39 +5,210 @@
 
 package decode
 
-//@ uses numbers
 
 //@ contract (buffer).decodeNatural
+//@   needs numbers colors
 //@   ensures [C08.dec.nat.n C02.dec.nat.n C03.dec.nat] (= n (spec.numN (arr b) (off b) (len b)))
 //@   ensures [C08.dec.nat.value C03.dec.nat] (=> (not (= n (int 0))) (= u (spec.natV (arr b) (off b))))
 //@   ensures [C08.dec.nat.zero] (=> (= n (int 0)) (= u (u32 0)))
 
 //@ contract (buffer).decodeReal
+//@   needs numbers colors
 //@   ensures [C08.dec.real.n C02.dec.real.n C03.dec.real] (= n (spec.numN (arr b) (off b) (len b)))
 //@   ensures [C08.dec.real.value C03.dec.real] (=> (not (= n (int 0))) (= f (spec.realV (arr b) (off b))))
 
 //@ contract (buffer).decodeCoordinate
+//@   needs numbers colors
 //@   ensures [C08.dec.coord.n C02.dec.coord.n C03.dec.coord] (= n (spec.numN (arr b) (off b) (len b)))
 //@   ensures [C08.dec.coord.value C03.dec.coord] (=> (not (= n (int 0))) (= f (spec.coordV (arr b) (off b))))
 
 //@ contract (buffer).decodeZeroToOne
+//@   needs numbers colors
 //@   ensures [C08.dec.z2o.n C02.dec.z2o.n C03.dec.z2o] (= n (spec.numN (arr b) (off b) (len b)))
 //@   ensures [C08.dec.z2o.value C03.dec.z2o] (=> (not (= n (int 0))) (= f (spec.z2oV (arr b) (off b))))
 
-//@ uses colors
 
 //@ contract (buffer).decodeColor1
+//@   needs numbers colors
 //@   ensures [C09.dec.buf1.n C02.dec.color.n C03.dec.color1] (= n (ite (bvult (len b) (int 1)) (int 0) (int 1)))
 //@   ensures [C09.dec.buf1 C03.dec.color1] (=> (not (= n (int 0))) (= c (spec.color1 (at b (int 0)))))
 //@ contract (buffer).decodeColor2
+//@   needs numbers colors
 //@   ensures [C09.dec.buf2.n C02.dec.color.n C03.dec.color2] (= n (ite (bvult (len b) (int 2)) (int 0) (int 2)))
 //@   ensures [C09.dec.buf2 C03.dec.color2] (=> (not (= n (int 0))) (= c (spec.color2 (at b (int 0)) (at b (int 1)))))
 //@ contract (buffer).decodeColor3Direct
+//@   needs numbers colors
 //@   ensures [C09.dec.buf3d.n C02.dec.color.n C03.dec.color3d] (= n (ite (bvult (len b) (int 3)) (int 0) (int 3)))
 //@   ensures [C09.dec.buf3d C03.dec.color3d] (=> (not (= n (int 0))) (= c (spec.color3d (at b (int 0)) (at b (int 1)) (at b (int 2)))))
 //@ contract (buffer).decodeColor4
+//@   needs numbers colors
 //@   ensures [C09.dec.buf4.n C02.dec.color.n C03.dec.color4] (= n (ite (bvult (len b) (int 4)) (int 0) (int 4)))
 //@   ensures [C09.dec.buf4 C03.dec.color4] (=> (not (= n (int 0))) (= c (spec.color4 (at b (int 0)) (at b (int 1)) (at b (int 2)) (at b (int 3)))))
 //@ contract (buffer).decodeColor3Indirect
+//@   needs numbers colors
 //@   ensures [C09.dec.buf3i.n C02.dec.color.n C03.dec.color3i] (= n (ite (bvult (len b) (int 3)) (int 0) (int 3)))
 //@   ensures [C09.dec.buf3i C03.dec.color3i] (=> (not (= n (int 0))) (= c (spec.color3i (at b (int 0)) (at b (int 1)) (at b (int 2)))))
+
+
+// the printer callback: every call is an event of the ghost trace tr.decode.printer
+//@ functype printer
+// user-supplied decode options may write only the metadata they are handed
+//@ functype DecodeOption
+//@   pure
+//@   modifies *arg0
+
+//@ filelet B (arr src)
+//@ filelet P (off src)
+//@ filelet E (bvadd (off src) (len src))
+//@ filelet TRD tr.ivg.Destination
+//@ filelet TRP tr.decode.printer
+//@ filelet isDnf (or (= dnf (fnid buffer.decodeReal)) (= dnf (fnid buffer.decodeCoordinate)) (= dnf (fnid buffer.decodeZeroToOne)))
+
+//@ contract isNaNOrInfinity
+//@   needs ffv0
+//@   ensures [C13.nonfinite C02.nonfinite] (= result (or (fp.isNaN f) (fp.isInfinite f)))
+
+//@ contract decodeNumber
+//@   needs ffv0
+//@   requires [dnf] isDnf
+//@   modifies tr.decode.printer
+//@   let k (spec.numN B P (len src))
+//@   ensures [C02.number.err C03.number.err C08.dec.number.err C13.number.err] (= result.2 (ite (= k (int 0)) (errval errInvalidNumber) nil.Iface))
+//@   ensures [C02.number.rest C03.number.rest C08.dec.number.rest C13.number.rest] (=> (not (= k (int 0))) (= result.1 (ffv0.drop src k)))
+//@   ensures [C02.number.ends C03.number.ends C13.number.ends] (=> (not (= k (int 0))) (and (= (rgn result.1) (rgn src)) (= (bvadd (off result.1) (len result.1)) (bvadd (off src) (len src))) (= (bvadd (off result.1) (cap result.1)) (bvadd (off src) (cap src))) (bvult (off src) (off result.1)) (bvule (off result.1) (bvadd (off src) (len src)))))
+//@   ensures [C03.number.skip C13.number.skip] (and (= (not (= k (int 0))) (ffv0.numOK B P E)) (=> (not (= k (int 0))) (= (off result.1) (ffv0.skip B P E))))
+//@   ensures [C03.number.value C08.dec.number.value C13.number.value] (=> (not (= k (int 0))) (= result.0 (ite (= dnf (fnid buffer.decodeReal)) (spec.realV B P) (ite (= dnf (fnid buffer.decodeCoordinate)) (spec.coordV B P) (spec.z2oV B P)))))
+//@   ensures [C11.number.print] (ite (or (= p 0) (= k (int 0))) (= TRP (old TRP)) (and ((_ is cons.decode.printer) TRP) (= (decode.printer.call.a0 (hd.decode.printer TRP)) (ffv0.take src k)) (= (tl.decode.printer TRP) (old TRP))))
+
+// decodeCoordinates is expanded at its call sites: its loop runs len(coords) <= 6 times and is unrolled completely
+// (an unwinding obligation proves the bound), so no closed form over runs of numbers is needed.
+//@ contract decodeCoordinates
+//@   needs ffv0
+//@   inline
+//@   unroll 0 6
+//@   let K (bvadd rangeindex (int 1))
+//@   let B0 (arr src@0)
+//@   let P0 (off src@0)
+//@   let E0 (bvadd (off src@0) (len src@0))
+//@   invariant 0 [coords.cp.frame] (and (= (rgn src) (rgn src@0)) (= (bvadd (off src) (len src)) E0) (= (bvadd (off src) (cap src)) (bvadd P0 (cap src@0))) (bvule P0 (off src)) (bvule (off src) E0) (=> (bvslt (int 0) K) (bvult P0 (off src))))
+//@   invariant 0 [coords.cp] thorough (and (draw.numsOK B0 P0 E0 K) (= (off src) (draw.posN B0 P0 E0 K)))
+//@   invariant 0 [coords.cp.values] thorough (and (=> (bvslt (int 0) K) (= (at coords (int 0)) (draw.c0 B0 P0 E0))) (=> (bvslt (int 1) K) (= (at coords (int 1)) (draw.c1 B0 P0 E0))) (=> (bvslt (int 2) K) (= (at coords (int 2)) (draw.c2 B0 P0 E0))) (=> (bvslt (int 3) K) (= (at coords (int 3)) (draw.c3 B0 P0 E0))) (=> (bvslt (int 4) K) (= (at coords (int 4)) (draw.c4 B0 P0 E0))) (=> (bvslt (int 5) K) (= (at coords (int 5)) (draw.c5 B0 P0 E0))))
+
+//@ contract decodeAngle
+//@   needs ffv0
+//@   modifies tr.decode.printer
+//@   let k (spec.numN B P (len src))
+//@   ensures [C02.angle.err C03.angle.err] (= result.2 (ite (= k (int 0)) (errval errInvalidNumber) nil.Iface))
+//@   ensures [C02.angle.rest C03.angle.rest] (=> (not (= k (int 0))) (= result.1 (ffv0.drop src k)))
+//@   ensures [C02.angle.ends C03.angle.ends] (=> (not (= k (int 0))) (and (= (rgn result.1) (rgn src)) (= (bvadd (off result.1) (len result.1)) (bvadd (off src) (len src))) (= (bvadd (off result.1) (cap result.1)) (bvadd (off src) (cap src))) (bvult (off src) (off result.1)) (bvule (off result.1) (bvadd (off src) (len src)))))
+//@   ensures [C03.angle.skip] (and (= (not (= k (int 0))) (ffv0.numOK B P E)) (=> (not (= k (int 0))) (= (off result.1) (ffv0.skip B P E))))
+//@   ensures [C03.angle.value] (=> (not (= k (int 0))) (= result.0 (spec.z2oV B P)))
+//@   ensures [C11.angle.print] (ite (or (= p 0) (= k (int 0))) (= TRP (old TRP)) (and ((_ is cons.decode.printer) TRP) (= (decode.printer.call.a0 (hd.decode.printer TRP)) (ffv0.take src k)) (= (tl.decode.printer TRP) (old TRP))))
+
+//@ contract decodeArcToFlags
+//@   needs ffv0
+//@   modifies tr.decode.printer
+//@   let k (spec.numN B P (len src))
+//@   ensures [C02.flags.err C03.flags.err] (= result.3 (ite (= k (int 0)) (errval errInvalidNumber) nil.Iface))
+//@   ensures [C02.flags.rest C03.flags.rest] (=> (not (= k (int 0))) (= result.2 (ffv0.drop src k)))
+//@   ensures [C02.flags.ends C03.flags.ends] (=> (not (= k (int 0))) (and (= (rgn result.2) (rgn src)) (= (bvadd (off result.2) (len result.2)) (bvadd (off src) (len src))) (= (bvadd (off result.2) (cap result.2)) (bvadd (off src) (cap src))) (bvult (off src) (off result.2)) (bvule (off result.2) (bvadd (off src) (len src)))))
+//@   ensures [C03.flags.skip] (and (= (not (= k (int 0))) (ffv0.numOK B P E)) (=> (not (= k (int 0))) (= (off result.2) (ffv0.skip B P E))))
+//@   ensures [C03.flags.value] (=> (not (= k (int 0))) (and (= result.0 (= ((_ extract 0 0) (spec.natV B P)) #b1)) (= result.1 (= ((_ extract 1 1) (spec.natV B P)) #b1))))
+//@   ensures [C11.flags.print] (ite (or (= p 0) (= k (int 0))) (= TRP (old TRP)) (and ((_ is cons.decode.printer) TRP) (= (decode.printer.call.a0 (hd.decode.printer TRP)) (ffv0.take src k)) (= (tl.decode.printer TRP) (old TRP))))
+
+// ---- drawing mode (C02, C03, C11)
+
+//@ contract decodeDrawing
+//@   needs ffv0
+//@   requires [nonempty] (bvugt (len src) (int 0))
+//@   split thorough (bvlshr (at src (int 0)) #x04) in #x00 #x01 #x02 #x03 #x04 #x05 #x06 #x07 #x08 #x09 #x0a #x0b #x0c #x0d #x0e
+//@   modifies tr.ivg.Destination tr.decode.printer
+//@   let op (at src (int 0))
+//@   let g (draw.group op)
+//@   let Q (bvadd P (int 1))
+//@   let k1 (draw1.nnum op)
+//@   let ok1 (draw.numsOK B Q E k1)
+//@   ensures [C02.draw.err C03.draw.err] (=> (bvuge op #xe0) (= err (ite (draw1.reserved op) (errval errUnsupportedDrawingOpcode) (ite ok1 nil.Iface (errval errInvalidNumber)))))
+//@   ensures [C03.draw.single.event C02.draw.single.event] thorough (=> (bvuge op #xe0) (= TRD (ite (or (= dst nil.Iface) (draw1.reserved op) (not ok1)) (old TRD) (cons.ivg.Destination (draw1.event B Q E op dst) (old TRD)))))
+//@   ensures [C02.draw.single.mode C03.draw.single.mode] (=> (and (bvuge op #xe0) (= err nil.Iface)) (and (= mf (ite (= op #xe1) (fnid decodeStyling) (fnid decodeDrawing))) (= (rgn src1) (rgn src)) (= (bvadd (off src1) (len src1)) E) (bvult P (off src1)) (bvule (off src1) E)))
+//@   ensures [C02.draw.rep.err C03.draw.rep.err] (=> (bvult op #xe0) (or (= err nil.Iface) (= err (errval errInvalidNumber))))
+//@   ensures [C03.draw.rep.trunc] internal thorough (=> (and (bvult op #xb0) (not (= err nil.Iface))) (not (draw.repOK B (off phi:src) E g)))
+//@   ensures [C02.draw.rep.rest C03.draw.rep.rest] (=> (and (bvult op #xe0) (= err nil.Iface)) (and (= mf (fnid decodeDrawing)) (= (rgn src1) (rgn src)) (= (bvadd (off src1) (len src1)) E) (= (bvadd (off src1) (cap src1)) (bvadd P (cap src))) (bvult P (off src1)) (bvule (off src1) E)))
+//@   let E0 (bvadd (off src@0) (len src@0))
+//@   invariant 0 [draw.reps C03.draw.reps] (and (bvult (at src@0 (int 0)) #xe0) (= nReps (draw.reps (at src@0 (int 0)))) (bvsle (int 0) i) (bvsle i nReps) (= (rgn src) (rgn src@0)) (= E E0) (bvult (off src@0) (off src)) (bvule (off src) E0) (= (bvadd (off src) (cap src)) (bvadd (off src@0) (cap src@0))))
+//@   at call ivg.Destination.AbsLineTo assert [C03.draw.dispatch.AbsLineTo] (and (bvult (draw.group (at src@0 (int 0))) #x02) (= arg0 coords[0]) (= arg1 coords[1]))
+//@   at call ivg.Destination.RelLineTo assert [C03.draw.dispatch.RelLineTo] (and (and (bvuge (draw.group (at src@0 (int 0))) #x02) (bvult (draw.group (at src@0 (int 0))) #x04)) (= arg0 coords[0]) (= arg1 coords[1]))
+//@   at call ivg.Destination.AbsSmoothQuadTo assert [C03.draw.dispatch.AbsSmoothQuadTo] (and (= (draw.group (at src@0 (int 0))) #x04) (= arg0 coords[0]) (= arg1 coords[1]))
+//@   at call ivg.Destination.RelSmoothQuadTo assert [C03.draw.dispatch.RelSmoothQuadTo] (and (= (draw.group (at src@0 (int 0))) #x05) (= arg0 coords[0]) (= arg1 coords[1]))
+//@   at call ivg.Destination.AbsQuadTo assert [C03.draw.dispatch.AbsQuadTo] (and (= (draw.group (at src@0 (int 0))) #x06) (= arg0 coords[0]) (= arg1 coords[1]) (= arg2 coords[2]) (= arg3 coords[3]))
+//@   at call ivg.Destination.RelQuadTo assert [C03.draw.dispatch.RelQuadTo] (and (= (draw.group (at src@0 (int 0))) #x07) (= arg0 coords[0]) (= arg1 coords[1]) (= arg2 coords[2]) (= arg3 coords[3]))
+//@   at call ivg.Destination.AbsSmoothCubeTo assert [C03.draw.dispatch.AbsSmoothCubeTo] (and (= (draw.group (at src@0 (int 0))) #x08) (= arg0 coords[0]) (= arg1 coords[1]) (= arg2 coords[2]) (= arg3 coords[3]))
+//@   at call ivg.Destination.RelSmoothCubeTo assert [C03.draw.dispatch.RelSmoothCubeTo] (and (= (draw.group (at src@0 (int 0))) #x09) (= arg0 coords[0]) (= arg1 coords[1]) (= arg2 coords[2]) (= arg3 coords[3]))
+//@   at call ivg.Destination.AbsCubeTo assert [C03.draw.dispatch.AbsCubeTo] (and (= (draw.group (at src@0 (int 0))) #x0a) (= arg0 coords[0]) (= arg1 coords[1]) (= arg2 coords[2]) (= arg3 coords[3]) (= arg4 coords[4]) (= arg5 coords[5]))
+//@   at call ivg.Destination.RelCubeTo assert [C03.draw.dispatch.RelCubeTo] (and (= (draw.group (at src@0 (int 0))) #x0b) (= arg0 coords[0]) (= arg1 coords[1]) (= arg2 coords[2]) (= arg3 coords[3]) (= arg4 coords[4]) (= arg5 coords[5]))
+//@   at call ivg.Destination.AbsArcTo assert [C03.draw.dispatch.AbsArcTo] (and (= (draw.group (at src@0 (int 0))) #x0c) (= arg0 coords[0]) (= arg1 coords[1]) (= arg2 coords[2]) (= arg3 largeArc) (= arg4 sweep) (= arg5 coords[4]) (= arg6 coords[5]))
+//@   at call ivg.Destination.RelArcTo assert [C03.draw.dispatch.RelArcTo] (and (= (draw.group (at src@0 (int 0))) #x0d) (= arg0 coords[0]) (= arg1 coords[1]) (= arg2 coords[2]) (= arg3 largeArc) (= arg4 sweep) (= arg5 coords[4]) (= arg6 coords[5]))
+//@   at call ivg.Destination.ClosePathEndPath assert [C03.draw.dispatch.ClosePathEndPath] (and (= (at src@0 (int 0)) #xe1) )
+//@   at call ivg.Destination.ClosePathAbsMoveTo assert [C03.draw.dispatch.ClosePathAbsMoveTo] (and (= (at src@0 (int 0)) #xe2) (= arg0 coords[0]) (= arg1 coords[1]))
+//@   at call ivg.Destination.ClosePathRelMoveTo assert [C03.draw.dispatch.ClosePathRelMoveTo] (and (= (at src@0 (int 0)) #xe3) (= arg0 coords[0]) (= arg1 coords[1]))
+//@   at call ivg.Destination.AbsHLineTo assert [C03.draw.dispatch.AbsHLineTo] (and (= (at src@0 (int 0)) #xe6) (= arg0 coords[0]))
+//@   at call ivg.Destination.RelHLineTo assert [C03.draw.dispatch.RelHLineTo] (and (= (at src@0 (int 0)) #xe7) (= arg0 coords[0]))
+//@   at call ivg.Destination.AbsVLineTo assert [C03.draw.dispatch.AbsVLineTo] (and (= (at src@0 (int 0)) #xe8) (= arg0 coords[0]))
+//@   at call ivg.Destination.RelVLineTo assert [C03.draw.dispatch.RelVLineTo] (and (= (at src@0 (int 0)) #xe9) (= arg0 coords[0]))
+//@   at call decodeAngle assert [draw.cp.angle] thorough (= (off arg1) (draw.p2 (arr src@0) (off phi:src) E0))
+//@   at call decodeArcToFlags assert [draw.cp.flags] thorough (= (off arg1) (draw.p3 (arr src@0) (off phi:src) E0))
+//@   at call decodeCoordinates assert [draw.cp.coords] thorough (or (= (off arg2) (off phi:src)) (= (off arg2) (draw.p4 (arr src@0) (off phi:src) E0)))
+//@   step 0 [C03.draw.rep.step] thorough (=> (bvult (draw.group (at src@0 (int 0))) #x0a) (and (draw.repOK (arr src@0) (head (off src)) E0 (draw.group (at src@0 (int 0)))) (= (off src) (draw.repNext (arr src@0) (head (off src)) E0 (draw.group (at src@0 (int 0))))) (bvult (head (off src)) (off src))))
+//@   step 0 [C03.draw.rep.event] thorough (=> (bvult (draw.group (at src@0 (int 0))) #x06) (= TRD (ite (= dst nil.Iface) (head TRD) (cons.ivg.Destination (draw.repEvent (arr src@0) (head (off src)) E0 (draw.group (at src@0 (int 0))) dst) (head TRD)))))
+
+// ---- styling mode (C02, C03, C11)
+
+//@ filelet stylErr (ite (= (styl.err B P E) 0) nil.Iface (ite (= (styl.err B P E) 1) (errval errInvalidColor) (ite (= (styl.err B P E) 2) (errval errInvalidNumber) (errval errUnsupportedStylingOpcode))))
+//@ filelet stylOK (= (styl.err B P E) 0)
+//@ filelet stylRest (and (= (rgn result.1) (rgn src)) (= (off result.1) (styl.next B P E)) (= (bvadd (off result.1) (len result.1)) E) (= (bvadd (off result.1) (cap result.1)) (bvadd P (cap src))) (bvult P (off result.1)) (bvule (off result.1) E))
+//@ filelet stylMode (= result.0 (ite (styl.toDrawing (at src (int 0))) (fnid decodeDrawing) (fnid decodeStyling)))
+//@ filelet stylEvent (= TRD (ite (or (= dst nil.Iface) (not stylOK)) (old TRD) (cons.ivg.Destination (styl.event B P E dst) (old TRD))))
+
+//@ contract decodeSetCReg
+//@   needs ffv0
+//@   requires [nonempty] (bvugt (len src) (int 0))
+//@   requires [opcode] (and (= opcode (at src (int 0))) (bvuge opcode #x80) (bvult opcode #xa8))
+//@   modifies tr.ivg.Destination tr.decode.printer
+//@   ensures [C02.creg.err C03.creg.err] (= result.2 stylErr)
+//@   ensures [C02.creg.rest C03.creg.rest] (=> stylOK (and stylRest stylMode))
+//@   ensures [C03.creg.event C02.creg.event] stylEvent
+
+//@ contract decodeSetNReg
+//@   needs ffv0
+//@   requires [nonempty] (bvugt (len src) (int 0))
+//@   requires [opcode] (and (= opcode (at src (int 0))) (bvuge opcode #xa8) (bvult opcode #xc0))
+//@   modifies tr.ivg.Destination tr.decode.printer
+//@   ensures [C02.nreg.err C03.nreg.err] (= result.2 stylErr)
+//@   ensures [C02.nreg.rest C03.nreg.rest] (=> stylOK (and stylRest stylMode))
+//@   ensures [C03.nreg.event C02.nreg.event] stylEvent
+
+//@ contract decodeStartPath
+//@   needs ffv0
+//@   requires [nonempty] (bvugt (len src) (int 0))
+//@   requires [opcode] (and (= opcode (at src (int 0))) (bvuge opcode #xc0) (bvult opcode #xc7))
+//@   modifies tr.ivg.Destination tr.decode.printer
+//@   ensures [C02.start.err C03.start.err] (= result.2 stylErr)
+//@   ensures [C02.start.rest C03.start.rest] (=> stylOK (and stylRest stylMode))
+//@   ensures [C03.start.event C02.start.event] stylEvent
+
+//@ contract decodeSetLOD
+//@   needs ffv0
+//@   requires [nonempty] (bvugt (len src) (int 0))
+//@   requires [opcode] (= (at src (int 0)) #xc7)
+//@   modifies tr.ivg.Destination tr.decode.printer
+//@   ensures [C02.lod.err C03.lod.err] (= result.2 stylErr)
+//@   ensures [C02.lod.rest C03.lod.rest] (=> stylOK (and stylRest stylMode))
+//@   ensures [C03.lod.event C02.lod.event] stylEvent
+
+//@ contract decodeStyling
+//@   needs ffv0
+//@   requires [nonempty] (bvugt (len src) (int 0))
+//@   modifies tr.ivg.Destination tr.decode.printer
+//@   ensures [C02.styl.err C03.styl.err] (= result.2 stylErr)
+//@   ensures [C02.styl.rest C03.styl.rest] (=> stylOK (and stylRest stylMode))
+//@   ensures [C03.styl.event C02.styl.event] stylEvent
